@@ -597,6 +597,9 @@ func (g *Gen) applyContract(ctr *Contract, ce callee, c *ssa.CallCommon, args, r
 		if cl.Kind != "ensures" || !cl.visible(g.prop) {
 			continue
 		}
+		if cl.Free {
+			g.freeUsed[ctr.Key+": "+cl.Src] = true
+		}
 		g.guard(implies(guard, g.transBool(cl.E, postEnv)))
 	}
 }
@@ -760,7 +763,7 @@ func (g *Gen) ret(r *ssa.Return) {
 	env := g.fnEnv(r)
 	detail := fmt.Sprintf("return@%s", g.retLabel(r))
 	for i, cl := range g.ctr.Clauses {
-		if cl.Kind != "ensures" || !cl.visible(g.prop) {
+		if cl.Kind != "ensures" || !cl.visible(g.prop) || cl.Free {
 			continue
 		}
 		for k, cj := range conjuncts(cl.E) {
